@@ -272,6 +272,39 @@ def F17():
         return "parallel and serial refinement differ"
 
 
+def F21():
+    import pde
+    from droplets import DiffuseDroplet
+    from droplets.image_analysis import refine_droplet
+    g = pde.CylindricalSymGrid(8, (0, 16), (8, 16))
+    img = DiffuseDroplet([0, 0, 8], 4, 1.).get_phase_field(g)
+    d = refine_droplet(img, DiffuseDroplet([0.3, 0.4, 8.2], 4.2, 1.))
+    if not (d.position[0] == 0.3 and d.position[1] == 0.4):
+        return f"refine_droplet changed coordinates fixed by the grid symmetry: (0.3, 0.4, .) -> {list(d.position)}"
+    g = pde.SphericalSymGrid(8, 16)
+    img = DiffuseDroplet([0, 0, 0], 4, 1.).get_phase_field(g)
+    d = refine_droplet(img, DiffuseDroplet([0, 0, -0.2], 4.2, 1.))
+    if list(d.position) != [0, 0, -0.2]:
+        return f"refine_droplet changed coordinates fixed by the grid symmetry: (0, 0, -0.2) -> {list(d.position)}"
+
+
+def F26():
+    import os
+    import tempfile
+    from droplets.droplets import PerturbedDroplet2D
+    from droplets.droplet_tracks import DropletTrack
+    t = DropletTrack([PerturbedDroplet2D([1, 2], 3, 0.5, [0.1, 0.3]), PerturbedDroplet2D([1, 2], 3, 0.5, [0.2])], [0, 1])
+    with tempfile.TemporaryDirectory(dir="/var/tmp") as tmp:
+        p = os.path.join(tmp, "t.h5")
+        try:
+            t.to_file(p)
+        except Exception:
+            return None  # raising is allowed
+        t2 = DropletTrack.from_file(p)
+        if not (len(t2) == 2 and list(t2.droplets[1].amplitudes) == [0.2]):
+            return f"track with differing amplitude counts written without error, reads back amplitudes {list(t2.droplets[1].amplitudes)}"
+
+
 ALL = {k: v for k, v in globals().items() if k[0] == "F" and callable(v)}
 
 if __name__ == "__main__":
